@@ -44,15 +44,20 @@ pub fn p_glib(s: &Sexp) -> Option<raw::Library> {
     let units = match v[2].int()? { 0 => raw::Units::Micro, 1 => raw::Units::Nano, 2 => raw::Units::Angstrom, _ => raw::Units::Pico };
     let mut lib = raw::Library::new(p_str(&v[1])?, units);
     let mut keys: HashMap<i64, raw::LayerKey> = HashMap::new();
+    // `(ln lp split)`: a SECOND layer object with the same number (as met1 / via share 68 in the crate's sample
+    // technology) holds the purposes >= split; both objects carry the same label purpose
+    let mut keys2: HashMap<i64, (i64, raw::LayerKey)> = HashMap::new();
     {
         let mut layers = lib.layers.write().unwrap();
         for row in &v[3].list()?[1..] {
             let r = row.list()?;
-            let mut layer = raw::Layer::from_num(r[0].int()? as i16);
-            if let Some(lp) = r[1].int() {
-                layer.add_purpose(lp as i16, raw::LayerPurpose::Label).ok()?;
-            }
-            keys.insert(r[0].int()?, layers.add(layer));
+            let mk = || -> Option<raw::Layer> {
+                let mut layer = raw::Layer::from_num(r[0].int()? as i16);
+                if let Some(lp) = r[1].int() { layer.add_purpose(lp as i16, raw::LayerPurpose::Label).ok()?; }
+                Some(layer)
+            };
+            keys.insert(r[0].int()?, layers.add(mk()?));
+            if let Some(split) = r.get(2).and_then(|x| x.int()) { keys2.insert(r[0].int()?, (split, layers.add(mk()?))); }
         }
     }
     let cells = &v[4..];
@@ -67,7 +72,7 @@ pub fn p_glib(s: &Sexp) -> Option<raw::Library> {
             let ev = e.list()?;
             let net = if ev[1].atom() == Some("#f") { None } else { Some(p_str(&ev[1])?) };
             let (ln, pn) = (ev[2].int()?, ev[3].int()?);
-            let key = *keys.get(&ln)?;
+            let key = match keys2.get(&ln) { Some((split, k2)) if pn >= *split => *k2, _ => *keys.get(&ln)? };
             let purpose = {
                 let mut layers = lib.layers.write().unwrap();
                 let layer = layers.slots.get_mut(key)?;
@@ -245,6 +250,9 @@ fn norm_raw(lib: &raw::Library) -> Vec<String> {
 /// no OTHER shape on the same layer contains a named shape's label point unless it carries the same net,
 /// and no unnamed shape's … (the price of GDSII's free-floating labels)
 fn label_separated(lib: &raw::Library) -> bool {
+    // GDSII knows layer NUMBERS: two layer objects that share a number are one layer there
+    let layers = lib.layers.read().unwrap();
+    let same_number = |a: raw::LayerKey, b: raw::LayerKey| a == b || (layers.get(a).map(|l| l.layernum) == layers.get(b).map(|l| l.layernum));
     for c in lib.cells.iter() {
         let c = c.read().unwrap();
         let ly = match &c.layout { Some(l) => l, None => continue };
@@ -252,7 +260,7 @@ fn label_separated(lib: &raw::Library) -> bool {
             if let Some(net) = &e.net {
                 let loc = match label_loc(&e.inner) { Some(l) => l, None => return false };
                 for (j, f) in ly.elems.iter().enumerate() {
-                    if i != j && f.layer == e.layer && f.inner.contains(&loc) && f.net.as_ref().map(|n| n.to_lowercase()) != Some(net.to_lowercase()) {
+                    if i != j && same_number(f.layer, e.layer) && f.inner.contains(&loc) && f.net.as_ref().map(|n| n.to_lowercase()) != Some(net.to_lowercase()) {
                         return false;
                     }
                 }
@@ -573,7 +581,11 @@ pub fn gen_glib(rng: &mut Rng) -> String {
     let n = 1 + rng.below(4) as usize;
     let tbl = crate::props::c17::random_graph(rng, n, false);
     let layers: [i64; 3] = [1, 5, 66];
-    let rows: Vec<String> = layers.iter().map(|l| format!("({} {})", l, if *l == 66 && rng.chance(1, 5) { "#f".to_string() } else { "250".to_string() })).collect();
+    let rows: Vec<String> = layers.iter().map(|l| {
+        let lp = if *l == 66 && rng.chance(1, 5) { "#f".to_string() } else { "250".to_string() };
+        // a fifth of the layers are TWO layer objects sharing the number: purposes >= split live on the second
+        if rng.chance(1, 5) { format!("({} {} {})", l, lp, 1 + rng.below(2)) } else { format!("({} {})", l, lp) }
+    }).collect();
     // list cells dependencies-first or in random order
     let mut order: Vec<usize> = (0..n).collect();
     for i in (1..n).rev() { let j = rng.below(i as u64 + 1) as usize; order.swap(i, j); }
